@@ -2645,16 +2645,18 @@ class RedunBackendDb(RedunBackend):
 
         # Try to detect previous Handles that have skipped recording
         # such as due to multiple chained fork calls.
+        # The child can be an unrecorded fork too (merge_handles() advances onto its first handle).
+        fork_candidates = [*parent_handles, child_handle]
         queue = [
             parent_handle.__handle__.fork_parent
-            for parent_handle in parent_handles
+            for parent_handle in fork_candidates
             if parent_handle.__handle__.fork_parent and not parent_handle.__handle__.is_recorded
         ]
         # A fork derives from the handle it was forked from. Remember these pairs, so that the
         # lineage edge can be recorded and a rollback of the original also reaches its forks.
         fork_edges = [
             (parent_handle.__handle__.fork_parent, parent_handle)
-            for parent_handle in parent_handles
+            for parent_handle in fork_candidates
             if parent_handle.__handle__.fork_parent and not parent_handle.__handle__.is_recorded
         ]
         # Handles are only marked as recorded once the rows are committed, so that a retry of this
